@@ -36,15 +36,22 @@ def shipped_mols(max_confs=8):
     return _CACHE['mols']
 
 
-def make_mol(base, n, name):
-    """Copy of `base` with its first n conformers; name: str -> _Name, None -> the property is removed."""
+def make_mol(base, n, name, ids=None):
+    """Copy of `base` with its first n conformers; name: str -> _Name, None -> the property is removed.
+    ids: RDKit conformer ids to give them (RDKit ids need not be 0..n-1 nor distinct: RemoveConformer leaves gaps, AddConformer
+    without assignId keeps whatever id the conformer carries); None -> 0..n-1."""
     from rdkit import Chem
     m = Chem.Mol(base)
     m.RemoveAllConformers()
     for j, c in enumerate(base.GetConformers()):
         if j >= n:
             break
-        m.AddConformer(Chem.Conformer(c), assignId=True)
+        c2 = Chem.Conformer(c)
+        if ids is None:
+            m.AddConformer(c2, assignId=True)
+        else:
+            c2.SetId(int(ids[j]))
+            m.AddConformer(c2, assignId=False)
     if name is None:
         if m.HasProp('_Name'):
             m.ClearProp('_Name')
